@@ -6,6 +6,7 @@ from fractions import Fraction
 from .. import astq, spec, nonecheck
 from .. import sym as S
 from ..eff import Effects, FRESH
+from ..report import MISSING
 from ..model import AnalysisError
 from ..symeval import SymEval
 from . import cli_common as cc
@@ -246,12 +247,12 @@ def gamma(ctx, R="R-C20-gamma"):
     ctx.check(lnc_n is not None and S.compare(lnc_n, want, domain={})["verdict"] == "equal", R, f, f.node,
               "ln c = order * ln alpha - ln (order-1)!", "ln c is %s" % (S.show(lnc_n)[:120] if lnc_n is not None else None))
     sup = [n for n in f.body_nodes() if isinstance(n, ast.Assign) and astq.is_name(n.targets[0], "ret") and isinstance(n.value, ast.Call)]
-    ok = len(sup) == 1 and astq.text(sup[0].value).replace(" ", "") in ("np.arange(width-1,-1,-1,dtype=float)",)
-    ctx.check(ok, R, f, sup[0] if sup else f.node, "the support is time-reversed: arange(width-1, -1, -1)",
+    ok = len(sup) == 1 and astq.in_texts(sup[0].value, ("np.arange(width-1,-1,-1,dtype=float)",))
+    ctx.check(ok, R, f, sup[0] if sup else MISSING(f.node), "the support is time-reversed: arange(width-1, -1, -1)",
               "support is %s" % (astq.text(sup[0].value) if sup else None))
     st = [n for n in f.body_nodes() if isinstance(n, ast.Assign) and isinstance(n.targets[0], ast.Subscript) and astq.is_name(n.targets[0].value, "ret")]
-    ok = len(st) == 1 and astq.text(st[0].value).replace(" ", "") == "ret[:offs]**(self.order-1)*np.exp(-alpha*ret[:offs]+ln_c)"
-    ctx.check(ok, R, f, st[0] if st else f.node, "samples are t^(order-1) exp(-alpha t + ln c)", "density is %s" % (astq.text(st[0].value) if st else None))
+    ok = len(st) == 1 and astq.eq_text(st[0].value, "ret[:offs]**(self.order-1)*np.exp(-alpha*ret[:offs]+ln_c)")
+    ctx.check(ok, R, f, st[0] if st else MISSING(f.node), "samples are t^(order-1) exp(-alpha t + ln c)", "density is %s" % (astq.text(st[0].value) if st else None))
     offs = env.get("offs")
     oko = False
     if offs is not None:
@@ -320,7 +321,7 @@ def gauss(ctx, R="R-C20-gauss"):
     gq = [n for n in ast.walk(um.tree) if isinstance(n, ast.FunctionDef) and n.name == "gauss_quant"]
     for d in gq:
         r = [x for x in ast.walk(d) if isinstance(x, ast.Return)]
-        ok = len(r) == 1 and astq.text(r[0].value).replace(" ", "") == "norm.ppf(p)*std+mu"
+        ok = len(r) == 1 and astq.eq_text(r[0].value, "norm.ppf(p)*std+mu")
         if ok:
             ctx.ok(R, "%s:%d" % (um.rel, d.lineno), "the scipy variant is norm.ppf(p) * std + mu")
         else:
